@@ -24,6 +24,7 @@ import time
 import traceback
 
 VERIF = os.path.dirname(os.path.dirname(os.path.abspath(__file__)))
+TORN_DOWN = False
 
 
 def h64(obj):
@@ -194,6 +195,8 @@ def run_check(modname, tier, seed, jobs=None):
                     stop = True
         finally:
             procs = list((getattr(ex, "_processes", None) or {}).values())
+            global TORN_DOWN
+            TORN_DOWN = True  # the CLI leaves through os._exit: the executor's exit hook would trip over the dead workers
             ex.shutdown(wait=False, cancel_futures=True)
             for p in procs:
                 try:
